@@ -100,6 +100,12 @@ def Op.wf : Op → Bool
   | .updMeta h _ => decide (h ≤ U64_MAX)
   | _ => true
 
+/-- every header handed to `insert` is validated (the documented precondition of the stores:
+    `ExtendedHeader::decode` validates, `verify` does not) -/
+def Op.validated : Op → Bool
+  | .insert batch => batch.all (fun h => h.valid)
+  | _ => true
+
 /-- mutating operations (the others are queries) -/
 def Op.mutating : Op → Bool
   | .insert _ | .remove _ | .mark _ | .updMeta _ _ => true
